@@ -1,6 +1,7 @@
 (* OpsCurve.v — case-protocol entry points for keys (C13), key derivation (C10) and subaddresses (C11),
    run on the executable Ed25519 / Keccak instance (Model/EdInst.v). *)
 From MRS Require Import Model.Base Model.EdInst Model.Keys Model.Derive Model.Subaddr Model.OpsBasic.
+From MRS Require Model.Keccak.
 From Coq Require Import String Ascii.
 Open Scope string_scope.
 Open Scope N_scope.
@@ -34,7 +35,9 @@ Definition ops_keys (op : string) (args : list string) : option string :=
   if String.eqb op "sk" then
     match args with
     | [h] => with_hex h (fun b => Some (show_fields (bindr (SK b) (fun s =>
-               Ok [skx s; string_of_bytes (sk_to_string s); hx (enc_sk s)]))))
+               (* bytes, Display, consensus bytes, bytes via TryFrom<&[u8]>, via TryFrom<[u8;32]>, to_string() *)
+               Ok [skx s; string_of_bytes (sk_to_string s); hx (enc_sk s); skx s; skx s;
+                   string_of_bytes (sk_to_string s)]))))
     | _ => None end
   else if String.eqb op "sk_str" then
     match args with
@@ -48,7 +51,21 @@ Definition ops_keys (op : string) (args : list string) : option string :=
   else if String.eqb op "pk" then
     match args with
     | [h] => with_hex h (fun b => Some (show_fields (bindr (PK b) (fun k =>
-               Ok [hx k; string_of_bytes (pk_to_string k); hx (enc_pk k)]))))
+               (* bytes, Display, consensus bytes, bytes via TryFrom<&[u8]>, via TryFrom<[u8;32]>, to_string(), Debug *)
+               Ok [hx k; string_of_bytes (pk_to_string k); hx (enc_pk k); hx k; hx k;
+                   string_of_bytes (pk_to_string k); string_of_bytes (pk_to_string k)]))))
+    | _ => None end
+  else if String.eqb op "pk_hash" then
+    (* Hashable::hash(&PublicKey) = Keccak-256 of the 32 key bytes *)
+    match args with
+    | [h] => with_hex h (fun b => Some (show_fields (bindr (PK b) (fun k => Ok [hx (Keccak.keccak256 k)]))))
+    | _ => None end
+  else if String.eqb op "viewpair" then
+    (* ViewPair::from(KeyPair{view,spend}) and ViewPair::from(&KeyPair{..}): view, spend; then from_private_key(&spend) *)
+    match args with
+    | [v; s] => with_hex v (fun v => with_hex s (fun s =>
+        Some (show_fields (bindr (SK v) (fun v => bindr (SK s) (fun s =>
+          let S := pk_from_priv s in Ok [skx v; hx S; skx v; hx S; hx S]))))))
     | _ => None end
   else if String.eqb op "pk_str" then
     match args with
